@@ -158,6 +158,17 @@ def pt_index_cases(tier, seed):
             for dform in pt_dim_forms(rd, rd):
                 for ent in ents:
                     yield {"rdims": rd, "cdims": rd, "sysform": sform, "sys": s, "dimform": dform, "entries": ent}
+    # local dimensions whose products are numbers n with (1/n)*n != 1 in floating point (49, 98, 103, 107, ...): a size computed through
+    # a reciprocal and truncated comes out one too small (added after seeded change C03-9)
+    for rd, cd in (([7, 7], [7, 7]), ([7, 7, 2], [7, 7, 2]), ([2, 7, 7], [2, 7, 7]), ([49, 2], [49, 2]), ([103, 1], [103, 1]),
+                   ([49, 2], [2, 3]), ([2, 49], [3, 2])):
+        n = len(rd)
+        for sform, s, S in sys_alphabet(n):
+            if sform == "ndarray":
+                continue
+            for dform in pt_dim_forms(rd, cd):
+                if not dform.endswith("_nd"):
+                    yield {"rdims": rd, "cdims": cd, "sysform": sform, "sys": s, "dimform": dform, "entries": "int"}
     for rd, cd in rect_dims(tier):
         n = len(rd)
         ents = ("sym", "int", "intB", "float", "complex") if (n <= 2 or tier == "thorough") else ("sym", "complex")
@@ -348,7 +359,8 @@ def pt_cvx_check(case):
 # ------------------------------------------------------------------------------------------------ C03.realign_index
 def realign_shapes(tier):
     alpha = (2, 3, 4) if tier == "quick" else (2, 3, 4, 5)
-    return [list(t) for t in itertools.product(alpha, repeat=4)]
+    # ... plus shapes with a 49 (see pt_index_cases: (1/49)*49 != 1 in floating point)
+    return [list(t) for t in itertools.product(alpha, repeat=4)] + [[2, 49, 49, 2], [7, 7, 7, 7], [49, 2, 2, 3], [1, 49, 49, 1]]
 
 
 def realign_forms(r1, r2, c1, c2):
